@@ -12,6 +12,12 @@ ASSUMPTIONS = ['decimal typed fields and non-canonical date strings are outside 
                'DE43_* entries are compared with the regex model (pattern translated from the configuration on every run)']
 
 
+THREADS = True
+
+
+def thread_ok(case):
+    return not case.get('warm')
+
 def gen(rng, tier):
     cases = []
     n = 3600 if tier == 'quick' else 45000
